@@ -120,6 +120,12 @@ namespace c16
   // ------------------------------------------------------------------ helpers
   struct Pred { bool operator() (int) const; };
 
+  // a value that is comparable with int but not convertible to it: std::erase (c, const U&) takes
+  // any U for which `element == value` is valid
+  struct Key { };
+  bool operator== (int, const Key&);
+  bool operator== (const Key&, int);
+
   // forward iterator over `long` for CTAD
   struct FwdLong
   {
